@@ -146,7 +146,7 @@ func c03Op(r *hx.Run, t *c03Tree, nextID *int, base c03Tree) string {
 		}
 		return rr.Intn(len(tree))
 	}
-	switch rr.Intn(13) {
+	switch rr.Intn(14) {
 	case 0: // add file
 		f := c03File{ID: *nextID, Path: fmt.Sprintf("rules/f%d.yml", *nextID)}
 		*nextID++
@@ -257,6 +257,22 @@ func c03Op(r *hx.Run, t *c03Tree, nextID *int, base c03Tree) string {
 				}
 				*t = append(tree, f)
 				return "re-create " + p
+			}
+		}
+	case 13: // a rule keeps its name and changes its kind (record: X becomes alert: X, or back): removed + added, never modified
+		if i := pickFile(); i >= 0 && len(tree[i].Rules) > 0 {
+			k := rr.Intn(len(tree[i].Rules))
+			ru := tree[i].Rules[k]
+			if !c03Used(tree[i])[fmt.Sprintf("%v|%s", !ru.Alert, ru.Name)] {
+				ru.Alert = !ru.Alert
+				if !ru.Alert {
+					ru.For = ""
+				}
+				if rr.Intn(2) == 0 {
+					ru.Expr = hx.Pick(rr, c03Exprs)
+				}
+				tree[i].Rules[k] = ru
+				return "switch kind of " + ru.Name + " in " + tree[i].Path
 			}
 		}
 	case 10: // file-level disable comment (changes every rule's effective content)
